@@ -45,7 +45,10 @@ InvAlphabet == {Inv(l, k, pw) : l \in {l \in Layouts : HasU(l)}, k \in 0..2, pw 
                \cup {Inv(l, 0, pw) : l \in {l \in Layouts : ~HasU(l)}, pw \in BOOLEAN}
 BaseNoise == {St("av", "r1", "ot", "-", 0), St("un", "r1", "ot", "-", 0), St("av", "rx", "me", "-", 0),
           St("un", "rx", "me", "-", 0), St("inv", "r1", "-", "-", 0), St("inv", "r1", "-", "-", 1),
-          St("inv", "r1", "-", "-", 2), St("oth", "-", "-", "-", 0), St("oth", "-", "-", "-", 1)}
+          St("inv", "r1", "-", "-", 2), St("oth", "-", "-", "-", 0), St("oth", "-", "-", "-", 1),
+          \* presences of the room that is never joined whose muc#user payload cannot be decoded: ignored like the others
+          [St("av", "rx", "ot", "-", 0) EXCEPT !.shape = "badaff"], [St("un", "rx", "me", "-", 0) EXCEPT !.shape = "badstatus"],
+          [St("av", "rx", "me", "-", 0) EXCEPT !.shape = "badrole"]}
 Noise == IF InvFull THEN InvAlphabet \cup {St("oth", "-", "-", "-", 0)} ELSE BaseNoise
 
 (* script state: n calls made; has: rooms with a channel; open[r]: the unanswered call on r *)
